@@ -145,7 +145,7 @@ func cmdCheck(args []string) int {
 		HarnessPkgs: map[*ssa.Package]bool{},
 		MaxSteps:    20_000_000, MaxDepth: 400, MaxSymIndex: 256, MapOrderMax: 0,
 		UnwindCap: 64, ConcCap: 32, AllocLimit: 1 << 16, MaxPaths: 200000,
-		QueryTimeout: 60000, Solver: *solver, Trace: *trace, Debug: *debug,
+		QueryTimeout: 60000, Solver: *solver, Trace: *trace, Debug: *debug, SamplesPerJob: 2,
 	}
 	if *tier == "thorough" {
 		cfg.QueryTimeout = 300000
@@ -352,6 +352,51 @@ func cmdCheck(args []string) int {
 		newViol = append(newViol, fmt.Sprintf("VIOLATION property=%s replay=%s", prop, file))
 		fmt.Printf("  violation: %s[%s] %s: %s at %s inputs=%v\n", v.Harness, v.Case, v.Kind, v.Msg, v.Site, v.Inputs)
 	}
+	// ---- differential run: sampled passing paths must also pass natively ---------
+	diffRuns := 0
+	if !*noReplay && *fixed == "" {
+		byPkg := map[string][]replayFile{}
+		perHarnessCount := map[string]int{}
+		for _, r := range results {
+			h := jobHarness[findJob(jobs, r.Job)]
+			if h == nil || h.ReplayMode == "model-only" || h.Opts["diff"] == "off" {
+				continue
+			}
+			// harnesses that rely on function replacements or loop cuts behave
+			// differently natively unless written for both modes (diff=on)
+			if (len(h.Replace) > 0 || len(h.Cuts) > 0) && h.Opts["diff"] != "on" {
+				continue
+			}
+			for _, smp := range r.Samples {
+				if perHarnessCount[h.Name] >= 6 {
+					break
+				}
+				perHarnessCount[h.Name]++
+				args := r.Job.Args
+				if args == nil {
+					args = []uint64{}
+				}
+				byPkg[h.PkgDir] = append(byPkg[h.PkgDir], replayFile{Property: prop, Harness: h.Name, Case: r.Job.Case, Args: args, Inputs: smp})
+			}
+		}
+		for pkgDir, entries := range byPkg {
+			outs := nativeBatch(set, pkgDir, entries)
+			for i, e := range entries {
+				diffRuns++
+				if i >= len(outs) || !strings.HasSuffix(outs[i], " clean") {
+					got := "no output (process died?)"
+					if i < len(outs) {
+						got = outs[i]
+					}
+					file := filepath.Join(verifRoot, "replays", fmt.Sprintf("%s-%s-diff%d.json", prop, e.Harness, i))
+					b, _ := json.MarshalIndent(e, "", " ")
+					os.WriteFile(file, b, 0o644)
+					inconcl = append(inconcl, fmt.Sprintf("ENGINE-MISMATCH %s[%s]: a path the engine completed without violation does not pass natively on its own model: %s; inputs=%s", e.Harness, e.Case, got, file))
+				}
+			}
+		}
+	}
+	replays += diffRuns
 	// expected findings that were not seen: only informational
 	sort.Strings(knownSeen)
 	knownSeen = uniq(knownSeen)
@@ -462,6 +507,42 @@ func cmdCheck(args []string) int {
 	return exit
 }
 
+func findJob(jobs []*exec.Job, j *exec.Job) *exec.Job { return j }
+
+// nativeBatch runs a list of replay entries of one package through a single
+// go test invocation and returns the VF-REPLAY[i] lines in order.
+func nativeBatch(set *load.Set, pkgDir string, entries []replayFile) []string {
+	tmp := filepath.Join(verifRoot, "replays", "tmp", "batch_"+strings.ReplaceAll(pkgDir, "/", "_")+"_"+strconv.Itoa(os.Getpid()))
+	os.MkdirAll(tmp, 0o755)
+	defer os.RemoveAll(tmp)
+	listPath := filepath.Join(tmp, "list.json")
+	b, _ := json.Marshal(entries)
+	os.WriteFile(listPath, b, 0o644)
+	var h *load.Harness
+	for _, x := range set.Harnesses {
+		if x.PkgDir == pkgDir {
+			h = x
+			break
+		}
+	}
+	out := runNative(set, h, tmp, "VF_REPLAY_LIST="+listPath)
+	res := make([]string, 0, len(entries))
+	for i := range entries {
+		tag := fmt.Sprintf("VF-REPLAY[%d]:", i)
+		found := ""
+		for _, l := range strings.Split(out, "\n") {
+			if strings.HasPrefix(l, tag) {
+				found = strings.TrimSpace(l)
+			}
+		}
+		if found == "" {
+			break
+		}
+		res = append(res, found)
+	}
+	return res
+}
+
 func max1(n int) int {
 	if n < 1 {
 		return 1
@@ -551,6 +632,13 @@ func nativeReplay(set *load.Set, h *load.Harness, file string) (string, bool) {
 	tmp := filepath.Join(verifRoot, "replays", "tmp", strings.ReplaceAll(h.PkgDir, "/", "_")+"_"+strconv.Itoa(os.Getpid()))
 	os.MkdirAll(tmp, 0o755)
 	defer os.RemoveAll(tmp)
+	s := runNative(set, h, tmp, "VF_REPLAY="+file)
+	return classifyNative(s)
+}
+
+// runNative compiles the package of h with the harness files overlaid and runs
+// TestVFReplay with the given environment entry; returns combined output.
+func runNative(set *load.Set, h *load.Harness, tmp string, envEntry string) string {
 	repoDir := repoRoot
 	pattern := "."
 	if h.PkgDir != "" {
@@ -563,7 +651,7 @@ func nativeReplay(set *load.Set, h *load.Harness, file string) (string, bool) {
 	}
 	rt, err := set.RTSource(set.PkgName[h.PkgDir])
 	if err != nil {
-		return err.Error(), false
+		return err.Error()
 	}
 	rtPath := filepath.Join(tmp, "zz_vf_rt.go")
 	os.WriteFile(rtPath, rt, 0o644)
@@ -574,13 +662,16 @@ func nativeReplay(set *load.Set, h *load.Harness, file string) (string, bool) {
 	ovb, _ := json.Marshal(map[string]interface{}{"Replace": repl})
 	ovPath := filepath.Join(tmp, "overlay.json")
 	os.WriteFile(ovPath, ovb, 0o644)
-	cmd := osexec.Command("timeout", "300", "go", "test", "-tags", "verif", "-vet=off", "-count=1", "-overlay", ovPath, "-run", "^TestVFReplay$", "-v", pattern)
+	cmd := osexec.Command("timeout", "600", "go", "test", "-tags", "verif", "-vet=off", "-count=1", "-overlay", ovPath, "-run", "^TestVFReplay$", "-v", pattern)
 	cmd.Dir = repoRoot
-	cmd.Env = append(os.Environ(), "VF_REPLAY="+file, "GOFLAGS=-mod=mod", "GOPROXY=off", "GOSUMDB=off", "GOTOOLCHAIN=local")
+	cmd.Env = append(os.Environ(), envEntry, "GOFLAGS=-mod=mod", "GOPROXY=off", "GOSUMDB=off", "GOTOOLCHAIN=local")
 	var out bytes.Buffer
 	cmd.Stdout, cmd.Stderr = &out, &out
 	cmd.Run()
-	s := out.String()
+	return out.String()
+}
+
+func classifyNative(s string) (string, bool) {
 	for _, l := range strings.Split(s, "\n") {
 		if strings.HasPrefix(l, "VF-REPLAY:") {
 			l = strings.TrimSpace(l)
